@@ -641,3 +641,15 @@ def run(ctx, rep, tier):
         construction_checks(rep, F, tag)
         dead_panics(rep, F, G, tag)
         settings_strings(rep, F, tag)
+        # degenerate cones (empty, singleton) are collapsed before anything else sees the cone list
+        from . import c05
+        c05.input_normalisation(_Ren(rep, 'C05.R5', 'C04.R9'), F, tag)
+
+
+class _Ren:
+    def __init__(self, rep, old, new):
+        self.rep, self.old, self.new = rep, old, new
+        self.assumptions = rep.assumptions
+
+    def rule(self, rid, desc):
+        return self.rep.rule(self.new if rid == self.old else rid, desc)
